@@ -441,11 +441,11 @@ Qed.
 
 (* Python's compact output is a JSON text *)
 Theorem py_compact_wf_json : forall t v,
-  no_byte_array t = true -> no_proxy_names t = true -> names_distinct t = true ->
+  no_proxy_names t = true -> names_distinct t = true ->
   has_ty (erase t) v = true -> names_safe t = true ->
   exists s, py_to_json "," ":" t v = POk s /\ wf_json s = true.
 Proof.
-  intros t v Hb Hp Hd Hv Hn. exists (print_compact (expected t v)). split.
+  intros t v Hp Hd Hv Hn. exists (print_compact (expected t v)). split.
   - unfold py_to_json. now rewrite py_tree_correct.
   - apply wf_json_print, expected_keys_safe, Hn.
 Qed.
